@@ -169,3 +169,43 @@ def _(u):
 
     total = ops.reduce("sum", mk((B, T + 1), "f", lambda I: leg(I[0], I[1])), -1, label="total")
     same_tensor(u, "reward.sum", r, (B,), lambda b: -total.at(b))
+
+
+@unit("mtsp.rowlocal.step", file=F, func="MTSPEnv._step", props=("C04", "C14"))
+def _(u):
+    # 2-run non-interference: a row's successor state, mask, done flag and reward depend on that row only (in particular on
+    # ITS fleet size). The step counter i is a per-batch quantity by construction (every row is stepped together).
+    N = u.dim("N")
+    u.requires(N >= 2)
+
+    def req(u, td, B):
+        a, cn, i = td["action"], td["current_node"], td["i"]
+        return u.forall((B,), lambda b: AND(a.at(b) >= 0, a.at(b) < N, cn.at(b) >= 0, cn.at(b) < N, i.at(b) == i.at(0), i.at(b) >= 0))
+
+    u.inline((UT, "batch_to_scalar"))
+    rowlocal(u, "step", lambda u, B: state(u, B, N), lambda u, td: u.run(F, "MTSPEnv._step", td), requires=req)
+
+
+def _rowlocal_reward(u, cost_type):
+    N, T = u.dims("N T")
+    u.requires(AND(N >= 2, T >= 2))
+    env = u.obj(F, "MTSPEnv", cost_type=cost_type)
+
+    def mk_in(u, B):
+        return {"td": u.td(B, locs=((B, N, 2), "f"), reward=((B,), "f")), "actions": u.tensor("actions", (B, T), "i")}
+
+    def req(u, ins, B):
+        a = ins["actions"]
+        return u.forall((B, T), lambda b, t: AND(a.at(b, t) >= 0, a.at(b, t) < N))
+
+    rowlocal(u, "reward", mk_in, lambda u, ins: u.run(F, "MTSPEnv._get_reward", ins["td"], ins["actions"], selfobj=env), requires=req)
+
+
+@unit("mtsp.rowlocal.reward.sum", file=F, func="MTSPEnv._get_reward", props=("C04", "C14"))
+def _(u):
+    _rowlocal_reward(u, "sum")
+
+
+@unit("mtsp.rowlocal.reward.minmax", file=F, func="MTSPEnv._get_reward", props=("C04", "C14"))
+def _(u):
+    _rowlocal_reward(u, "minmax")
